@@ -178,6 +178,18 @@ def exp2_obs(tier, rng):
         zs.append(kern.Ob("coefficient-rounding/%d" % W, U, [("double", "d")], "return cnl::_impl::to_rep(cnl::_impl::fp::rounding_conversion<%s>(d));" % T,
                           ["auto const t = static_cast<cnl::_impl::rep_of_t<%s>>(d * %s); return static_cast<%s>((t + 1) >> 1);" % (one_longer, float(2 ** (W + 1)), U)],
                           pre=["d >= 0.0", "d < 1.0"], meta={"finding_key": "coefficient-rounding"}))
+    # H: evaluate_polynomial is the whole degree-7 Horner recurrence t <- trunc(x * (a_k + t)) in the all-fraction format, for
+    # every x (seeded change M-C20-5 returned after the quadratic term for small x: exp2 three units low on int32 formats).
+    # Only the 32-bit format: for 8 and 16 bits LLVM narrows the kernel's products to i32 and keeps one `and 255` that it
+    # removes from the reference; the normaliser does not unify the two (equal) forms, so those widths are not claimed.
+    for W in (32,):
+        U, U2 = UNS[W], UNS[64]
+        IM = "cnl::scaled_integer<%s, cnl::power<-%d>>" % (U, W)
+        co = "cnl::_impl::to_rep(cnl::_impl::fp::poly_coeffs<%s>::a%%d)" % IM
+        step = "t = static_cast<%s>((static_cast<%s>(a) * static_cast<%s>(%s + t)) >> %d); " % (U, U2, U2, co, W)
+        ref = ("%s t = static_cast<%s>((static_cast<%s>(%s) * static_cast<%s>(a)) >> %d); " % (U, U, U2, co % 7, U2, W)) + "".join(step % k for k in (6, 5, 4, 3, 2, 1)) + "return t;"
+        zs.append(kern.Ob("horner/%d" % W, U, [(U, "a")], "return cnl::_impl::to_rep(cnl::_impl::fp::evaluate_polynomial(cnl::_impl::from_rep<%s>(a)));" % IM, [ref],
+                          meta={"finding_key": "horner"}))
     return obs, zs
 
 
@@ -254,16 +266,18 @@ def run(tier, seed, work):
             return "exp2 on scaled_integer<%s, power<%d>> is not 2^floor(x) * (1 + p(frac x)) aligned to the result resolution: kernel differs from `%s`" % (ob.key.split("/")[1], ob.meta["E"], ob.refs[0])
         if ob.key.startswith("coefficient-rounding"):
             return "rounding_conversion into the %s-bit coefficient format does not round to nearest: kernel differs from `%s`" % (ob.key.split("/")[1], ob.refs[0])
+        if ob.key.startswith("horner"):
+            return "evaluate_polynomial in the %s-bit all-fraction format is not the degree-7 Horner recurrence t <- trunc(x * (a_k + t)) for every x: kernel differs from `%s`" % (ob.key.split("/")[1], ob.refs[0][:160])
         return "evaluate_polynomial(0) is not 0 for the %s-bit format: exp2 is not exact for integral x" % ob.key.split("/")[1]
     ns = common.settle_eq(r, obs, dsc)
     nz = common.settle_eq(r, zs, dsc)
     common.floor_check(r, "exp2 structure kernels proved", ns["proved"], FLOOR[tier]["structure"])
-    common.floor_check(r, "polynomial-at-zero and coefficient-rounding kernels proved", nz["proved"], 7)
+    common.floor_check(r, "polynomial-at-zero, coefficient-rounding and Horner kernels proved", nz["proved"], 8)
     common.floor_check(r, "type facts proved", nw["proved"], len(WF))
     good = [f for f in K if f.status == "proved"]
     r.coverage = {
         "explanation": "K: the compiled initialiser of every std::numbers constant for the grid of (Rep, Exponent) instantiations against an exact oracle; S: exp2 == 2^floor * (1 + P(frac)) aligned and truncated, with the polynomial uninterpreted; "
-                       "Z: P(0) == 0; P: the coefficient table against 2^t - 1 on representable points (necessary bound); W: widths of the intermediate products. The Horner evaluation's accumulated rounding is NOT decided.",
+                       "Z: P(0) == 0; P: the coefficient table against 2^t - 1 on representable points (necessary bound); W: widths of the intermediate products. H: evaluate_polynomial of the 32-bit format == the degree-7 Horner recurrence for every x. The Horner evaluation's accumulated rounding is NOT decided.",
         "evaluations": len(K) + len(obs) + len(zs) + len(WF) + 3, "distinct_nontrivial": nk["proved"] + ns["proved"] + nz["proved"] + nw["proved"] + len(cert),
         "rule": "non-trivial = proved constant fact / proved structure kernel / type fact / coefficient certificate",
         "constant_facts": len(K), "constant_facts_proved": nk["proved"], "constant_facts_refuted": nk["refuted"], "constants": len(CONSTS),
